@@ -270,7 +270,20 @@ fn scenario(seed: u64, rep: &Report, isolated: bool, nominated: &std::sync::Mute
                 return Err("programs diverged".into());
             }
             if b.outcome != Outcome::Ok || a.outcome != Outcome::Ok {
-                if a.outcome == Outcome::Ok {
+                // a checkout that ran into the pool's connect_timeout (300 ms of real time) is a
+                // latency effect: judged like the latency bound, i.e. only if it shows again when the
+                // scenario runs alone on the machine
+                let pool_timeout = matches!(&b.outcome, Outcome::PoolerError(m) if m.contains("could not get connection from the pool"));
+                if a.outcome == Outcome::Ok && pool_timeout {
+                    over_bound = true;
+                    if !isolated {
+                        let mut g = nominated.lock().unwrap();
+                        if !g.contains(&seed) {
+                            g.push(seed);
+                        }
+                        rep.count("checkout_timeouts_nominated_for_isolated_rerun", 1);
+                    }
+                } else if a.outcome == Outcome::Ok {
                     rep.violation(
                         &format!("C20|request_failed_only_with_faulty_mirror|kind={}", a.what),
                         &format!("request {} ({}) completed without mirrors but failed with a faulty mirror: {:?}", a.qid, a.what, b.outcome),
@@ -476,7 +489,7 @@ pub fn run(tier: &str) -> i32 {
         if over >= 2 {
             rep.violation(
                 "C20|added_waiting_with_faulty_mirror",
-                &format!("scenario seed {} exceeded the latency bound (10 x no-mirror latency + 250 ms) in {} of 4 isolated runs", seed, over),
+                &format!("scenario seed {} exceeded the latency bound (10 x no-mirror latency + 250 ms), or ran into the checkout timeout only with mirrors, in {} of 4 isolated runs", seed, over),
                 json!({"seed": seed, "isolated_runs_over_bound": over}),
             );
         } else {
